@@ -103,9 +103,7 @@ def pend : Option (Nat × Str) → Str
 
 theorem anchorTarget_prefix (nt : Str) : anchorTarget nt <+: nt := by
   unfold anchorTarget
-  split
-  · exact List.takeWhile_prefix _
-  · exact List.take_prefix _ _
+  exact List.takeWhile_prefix _
 
 theorem head_ge_of_all {es : List Edit} {n : Nat} (h : ∀ e ∈ es, n ≤ e.idx) :
     ∀ e, es.head? = some e → n ≤ e.idx := by
@@ -503,5 +501,199 @@ theorem go_aligned (tds : TokDiffList) : ∀ (cur : Nat) (p : Option (Nat × Str
           rcases he with he | he
           · subst he; exact stdCase
           · simpa [srcTok, dstTok] using tail e he
+
+end Adeu.Diff
+
+/-! ### separator splitting preserves both texts -/
+namespace Adeu.Diff
+open Adeu
+
+theorem sepSplitFuel_flatten (n : Nat) (cur r : Str) : (sepSplitFuel n cur r).flatten = cur ++ r := by
+  induction n generalizing cur r with
+  | zero => simp [sepSplitFuel]
+  | succ n ih =>
+    cases r with
+    | nil => simp [sepSplitFuel]
+    | cons c r =>
+      unfold sepSplitFuel
+      split
+      · rw [ih]; simp
+      · simp only [List.flatten_cons, ih, List.nil_append, List.take_append_drop]
+
+theorem sepSplit_flatten (s : Str) : (sepSplit s).flatten = s := by
+  simp [sepSplit, sepSplitFuel_flatten]
+
+theorem nextTokG_append (sp isw : Char → Bool) (ls : Bool) (r : Str) :
+    (nextTokG sp isw ls r).1 ++ (nextTokG sp isw ls r).2 = r := by
+  unfold nextTokG
+  dsimp only
+  repeat' split
+  all_goals first
+    | exact List.takeWhile_append_dropWhile
+    | exact List.take_append_drop _ _
+    | simp
+
+theorem nextTok_append (ls : Bool) (r : Str) : (nextTok ls r).1 ++ (nextTok ls r).2 = r :=
+  nextTokG_append _ _ ls r
+
+theorem tokensFuel_flatten (n : Nat) (ls : Bool) (r : Str) : (tokensFuel n ls r).flatten = r := by
+  induction n generalizing ls r with
+  | zero => unfold tokensFuel; split <;> simp_all
+  | succ n ih =>
+    unfold tokensFuel
+    split
+    · simp_all
+    · simp only [List.flatten_cons, ih]
+      exact nextTok_append ls r
+
+theorem tokens_flatten (s : Str) : flat (tokens s) = s := tokensFuel_flatten _ _ _
+
+theorem commonPrefixLen_le_left (a b : List Str) : commonPrefixLen a b ≤ a.length := by
+  fun_induction commonPrefixLen a b <;> simp_all
+
+theorem commonPrefixLen_le_right (a b : List Str) : commonPrefixLen a b ≤ b.length := by
+  fun_induction commonPrefixLen a b <;> simp_all
+
+theorem commonPrefixLen_take (a b : List Str) (k : Nat) (hk : k ≤ commonPrefixLen a b) :
+    a.take k = b.take k := by
+  fun_induction commonPrefixLen a b generalizing k with
+  | case1 a as bs ih =>
+    cases k with
+    | zero => simp
+    | succ k => simp [ih k (by omega)]
+  | case2 a as b bs h => simp_all
+  | case3 a b h =>
+    have : k = 0 := by omega
+    simp [this]
+
+theorem commonSuffix_drop (a b : List Str) (k : Nat) (hk : k ≤ commonPrefixLen a.reverse b.reverse) :
+    a.drop (a.length - k) = b.drop (b.length - k) := by
+  have h := commonPrefixLen_take a.reverse b.reverse k hk
+  have h2 := congrArg List.reverse h
+  have ha : k ≤ a.length := by
+    have := commonPrefixLen_le_left a.reverse b.reverse; simp at this; omega
+  have hb : k ≤ b.length := by
+    have := commonPrefixLen_le_right a.reverse b.reverse; simp at this; omega
+  simpa [List.reverse_take, List.take_reverse] using h2
+
+theorem src_filter (ds : DiffList) : src (ds.filter fun p => !p.2.isEmpty) = src ds := by
+  induction ds with
+  | nil => rfl
+  | cons x ds ih =>
+    obtain ⟨o, t⟩ := x
+    by_cases h : t = []
+    · subst h; cases o <;> simp [List.filter, src, ih]
+    · have : (!t.isEmpty) = true := by simp [h]
+      cases o <;> simp [List.filter, this, src, ih]
+
+theorem dst_filter (ds : DiffList) : dst (ds.filter fun p => !p.2.isEmpty) = dst ds := by
+  induction ds with
+  | nil => rfl
+  | cons x ds ih =>
+    obtain ⟨o, t⟩ := x
+    by_cases h : t = []
+    · subst h; cases o <;> simp [List.filter, dst, ih]
+    · have : (!t.isEmpty) = true := by simp [h]
+      cases o <;> simp [List.filter, this, dst, ih]
+
+theorem src_append (a b : DiffList) : src (a ++ b) = src a ++ src b := by
+  induction a with
+  | nil => rfl
+  | cons x a ih => obtain ⟨o, t⟩ := x; cases o <;> simp [src, ih]
+
+theorem dst_append (a b : DiffList) : dst (a ++ b) = dst a ++ dst b := by
+  induction a with
+  | nil => rfl
+  | cons x a ih => obtain ⟨o, t⟩ := x; cases o <;> simp [dst, ih]
+
+theorem take_mid_drop (l : List Str) (a b : Nat) (h : a + b ≤ l.length) :
+    l.take a ++ ((l.drop a).take (l.length - a - b) ++ l.drop (l.length - b)) = l := by
+  have h1 : (l.drop a).take (l.length - a - b) ++ l.drop (l.length - b) = l.drop a := by
+    have : l.drop (l.length - b) = (l.drop a).drop (l.length - a - b) := by
+      rw [List.drop_drop]; congr 1; omega
+    rw [this, List.take_append_drop]
+  rw [h1, List.take_append_drop]
+
+theorem pieces_src (d i : Str) : src (pieces d i) = d := by
+  unfold pieces
+  simp only [src_filter, src, flat, List.append_nil]
+  have h1 := commonPrefixLen_le_left (tokens d) (tokens i)
+  have h2 := commonPrefixLen_le_right (tokens d) (tokens i)
+  rw [← List.flatten_append, ← List.flatten_append, take_mid_drop _ _ _ (by omega)]
+  exact tokens_flatten d
+
+theorem pieces_dst (d i : Str) : dst (pieces d i) = i := by
+  unfold pieces
+  simp only [dst_filter, dst, flat, List.append_nil]
+  have hl := commonPrefixLen_take (tokens d) (tokens i) _ (Nat.le_refl _)
+  have ht := commonSuffix_drop (tokens d) (tokens i)
+    (min (commonPrefixLen (tokens d).reverse (tokens i).reverse)
+      (min (tokens d).length (tokens i).length - commonPrefixLen (tokens d) (tokens i))) (by omega)
+  have h1 := commonPrefixLen_le_left (tokens d) (tokens i)
+  have h2 := commonPrefixLen_le_right (tokens d) (tokens i)
+  rw [hl, ht, ← List.flatten_append, ← List.flatten_append, take_mid_drop _ _ _ (by omega)]
+  exact tokens_flatten i
+
+theorem segments_src (dp ip : List Str) (h : compat dp ip = true) : src (segments dp ip) = dp.flatten := by
+  fun_induction segments dp ip with
+  | case1 d s dr i s' ir ih =>
+    simp only [compat, Bool.and_eq_true] at h
+    simp [src_append, src, pieces_src, ih h.2]
+  | case2 d i => simp [pieces_src]
+  | case3 dp ip h1 h2 =>
+    exfalso
+    unfold compat at h
+    split at h
+    · exact h2 _ _ rfl rfl
+    · exact h1 _ _ _ _ _ _ rfl rfl
+    · simp at h
+
+theorem segments_dst (dp ip : List Str) (h : compat dp ip = true) : dst (segments dp ip) = ip.flatten := by
+  fun_induction segments dp ip with
+  | case1 d s dr i s' ir ih =>
+    simp only [compat, Bool.and_eq_true, beq_iff_eq] at h
+    simp [dst_append, dst, pieces_dst, ih h.2, h.1]
+  | case2 d i => simp [pieces_dst]
+  | case3 dp ip h1 h2 =>
+    exfalso
+    unfold compat at h
+    split at h
+    · exact h2 _ _ rfl rfl
+    · exact h1 _ _ _ _ _ _ rfl rfl
+    · simp at h
+
+theorem splitPair_src (d i : Str) (ps : DiffList) (h : splitPair d i = some ps) : src ps = d := by
+  unfold splitPair at h
+  simp only at h
+  split at h
+  · rename_i hc
+    simp only [Bool.and_eq_true] at hc
+    cases h
+    rw [segments_src _ _ hc.2, sepSplit_flatten]
+  · cases h
+
+theorem splitPair_dst (d i : Str) (ps : DiffList) (h : splitPair d i = some ps) : dst ps = i := by
+  unfold splitPair at h
+  simp only at h
+  split at h
+  · rename_i hc
+    simp only [Bool.and_eq_true] at hc
+    cases h
+    rw [segments_dst _ _ hc.2, sepSplit_flatten]
+  · cases h
+
+theorem splitDiffs_src (ds : DiffList) : src (splitDiffs ds) = src ds := by
+  fun_induction splitDiffs ds with
+  | case1 d i rest ps h ih => simp [src_append, src, splitPair_src d i ps h, ih]
+  | case2 d i rest h ih => simp [src, ih]
+  | case3 x rest hx ih => obtain ⟨o, t⟩ := x; cases o <;> simp [src, ih]
+  | case4 => rfl
+
+theorem splitDiffs_dst (ds : DiffList) : dst (splitDiffs ds) = dst ds := by
+  fun_induction splitDiffs ds with
+  | case1 d i rest ps h ih => simp [dst_append, dst, splitPair_dst d i ps h, ih]
+  | case2 d i rest h ih => simp [dst, ih]
+  | case3 x rest hx ih => obtain ⟨o, t⟩ := x; cases o <;> simp [dst, ih]
+  | case4 => rfl
 
 end Adeu.Diff
